@@ -22,7 +22,7 @@ from core.report import Result
 from core.types import is_set_type, kind, members
 
 from .c15_roots import FRESH, EffectSummaries, Roots
-from .common import callees_of, cfg_of, conds, dotted, guard_formula, is_attr_call, reachable_funcs, stmt_of, types_of, where
+from .common import callees_of, cfg_of, conds, dotted, guard_formula, is_attr_call, iter_sources, loops_around, reachable_funcs, stmt_of, types_of, where
 
 NXGRAPH = "pytestarch.eval_structure.networkxgraph"
 EVAL_GRAPH = "pytestarch.eval_structure.evaluable_graph"
@@ -52,67 +52,308 @@ def evaluation_roots(repo: Repo) -> list[FuncInfo]:
 
 # --------------------------------------------------------------------------- R1
 
+DIGRAPH = ("lib", "networkx.DiGraph")
+NODE_ADDERS = {"add_node", "add_nodes_from"}
+EDGE_ADDERS = {"add_edge", "add_edges_from", "add_weighted_edges_from"}
+
+
+def _is_digraph(T, f: FuncInfo, e: ast.AST) -> bool:
+    try:
+        return any(m == DIGRAPH for m in members(T.expr(f, e)))
+    except Exception:  # noqa: BLE001
+        return False
+
+
+def _through_digraph(T, f: FuncInfo, e: ast.AST) -> bool:
+    """The expression is, or is reached through, a networkx graph (`g`, `g.nodes[n]`, `g[a][b]`)."""
+    while True:
+        if _is_digraph(T, f, e):
+            return True
+        if isinstance(e, (ast.Attribute, ast.Subscript)):
+            e = e.value
+        elif isinstance(e, ast.Call) and isinstance(e.func, ast.Attribute):
+            e = e.func.value
+        else:
+            return False
+
+
+def _lib_name(repo: Repo, ctx: FuncInfo, call: ast.Call) -> str:
+    """Dotted name of a called library function; names in an inlined view are resolved where they were written."""
+    src = getattr(call, "_src", None)
+    mod = src[0].module if src is not None else ctx.module
+    if isinstance(call.func, (ast.Name, ast.Attribute)):
+        return repo.resolve_name(mod, call.func) or ""
+    return ""
+
+
+def graph_mutations(repo: Repo) -> list[tuple[FuncInfo, ast.AST, str, ast.AST]]:
+    """(function, node, kind, receiver) of every in-place modification of a networkx graph: kind is node | edge | other."""
+    from core.cfg import MUTATORS
+
+    T = types_of(repo)
+    out = []
+    for f in repo.all_functions():
+        for n in own_nodes(f.node):
+            if isinstance(n, ast.Call) and isinstance(n.func, ast.Attribute):
+                a = n.func.attr
+                if a in GRAPH_MUTATORS and _is_digraph(T, f, n.func.value):
+                    out.append((f, n, "node" if a in NODE_ADDERS else "edge" if a in EDGE_ADDERS else "other", n.func.value))
+                elif a in MUTATORS and not _is_digraph(T, f, n.func.value) and _through_digraph(T, f, n.func.value):
+                    out.append((f, n, "other", n.func.value))
+            elif isinstance(n, (ast.Assign, ast.AugAssign, ast.AnnAssign, ast.Delete)):
+                tg = n.targets if isinstance(n, (ast.Assign, ast.Delete)) else [n.target]
+                for t in tg:
+                    for el in (t.elts if isinstance(t, (ast.Tuple, ast.List)) else [t]):
+                        if isinstance(el, (ast.Subscript, ast.Attribute)) and _through_digraph(T, f, el.value):
+                            out.append((f, n, "other", el.value))
+    return out
+
+
+def _closure(repo: Repo, seeds: set[FuncInfo]) -> set[FuncInfo]:
+    """Functions from which one of `seeds` is reachable through resolved calls."""
+    out = set(seeds)
+    changed = True
+    funcs = repo.all_functions()
+    while changed:
+        changed = False
+        for f in funcs:
+            if f in out:
+                continue
+            if any(g in out for g in callees_of(repo, f, False)):
+                out.add(f)
+                changed = True
+    return out
+
+
+def _own_exprs(s: ast.AST) -> list[ast.AST]:
+    """Expressions evaluated by the statement itself (not by the statements nested in it)."""
+    if isinstance(s, (ast.For, ast.AsyncFor)):
+        return [s.iter]
+    if isinstance(s, (ast.While, ast.If)):
+        return [s.test]
+    if isinstance(s, (ast.With, ast.AsyncWith)):
+        return [i.context_expr for i in s.items]
+    if isinstance(s, ast.Try):
+        return []
+    if isinstance(s, ast.Match):
+        return [s.subject]
+    if isinstance(s, (ast.FunctionDef, ast.AsyncFunctionDef, ast.ClassDef, ast.ExceptHandler)):
+        return []
+    return [s]
+
+
+class GraphBuild:
+    """The constructor of a graph class, seen through its inlined view: where is the graph modified, where is it frozen."""
+
+    def __init__(self, repo: Repo, cls, init: FuncInfo) -> None:
+        self.repo = repo
+        self.cls = cls
+        self.init = init
+        self.T = types_of(repo)
+        self.view = inline_view(repo, init, self.T)
+        self.cfg = cfg_of(self.view)
+        muts = graph_mutations(repo)
+        self.kind_funcs = {k: _closure(repo, {f for f, _n, kk, _r in muts if kk == k}) for k in ("node", "edge", "other")}
+        freezers = {f for f in repo.all_functions() for c in calls_in(f.node) if _lib_name(repo, f, c) == "networkx.freeze"}
+        self.freeze_funcs = _closure(repo, freezers)
+
+    def events(self, s: ast.AST) -> dict[str, list[ast.Call]]:
+        """kind -> calls of the statement's own expressions that (may) modify / freeze a graph."""
+        out: dict[str, list[ast.Call]] = {}
+        v, T = self.view, self.T
+        for e in _own_exprs(s):
+            for c in ast.walk(e):
+                if isinstance(c, (ast.Assign, ast.AugAssign, ast.AnnAssign, ast.Delete)) and c is s:
+                    tg = c.targets if isinstance(c, (ast.Assign, ast.Delete)) else [c.target]
+                    for t in tg:
+                        for el in (t.elts if isinstance(t, (ast.Tuple, ast.List)) else [t]):
+                            if isinstance(el, (ast.Subscript, ast.Attribute)) and _through_digraph(T, v, el.value):
+                                out.setdefault("other", []).append(c)  # type: ignore[arg-type]
+                if not isinstance(c, ast.Call):
+                    continue
+                if _lib_name(self.repo, v, c) == "networkx.freeze":
+                    out.setdefault("freeze", []).append(c)
+                    continue
+                if isinstance(c.func, ast.Attribute) and c.func.attr in GRAPH_MUTATORS and _is_digraph(T, v, c.func.value):
+                    a = c.func.attr
+                    out.setdefault("node" if a in NODE_ADDERS else "edge" if a in EDGE_ADDERS else "other", []).append(c)
+                    continue
+                try:
+                    cs, _how = T.callees(v, c, byname_fallback=False)
+                except Exception:  # noqa: BLE001
+                    cs = []
+                for k, fs in self.kind_funcs.items():
+                    if any(g in fs for g in cs):
+                        out.setdefault(k, []).append(c)
+                if any(g in self.freeze_funcs for g in cs):
+                    out.setdefault("freeze", []).append(c)
+        return out
+
+
+def _derived(v: FuncInfo, seed: str) -> set[str]:
+    """Names and `self.x` texts of the view that hold (a copy / projection of) the parameter `seed`."""
+    d = {seed}
+
+    def mentions(e: ast.AST) -> bool:
+        return any((isinstance(x, ast.Name) and x.id in d) or (isinstance(x, ast.Attribute) and norm(x) in d) for x in ast.walk(e))
+
+    changed = True
+    while changed:
+        changed = False
+        for n in own_nodes(v.node):
+            if isinstance(n, (ast.Assign, ast.AnnAssign)) and n.value is not None and mentions(n.value):
+                tg = n.targets if isinstance(n, ast.Assign) else [n.target]
+                for t in tg:
+                    key = t.id if isinstance(t, ast.Name) else norm(t) if isinstance(t, ast.Attribute) else None
+                    if key is not None and key not in d:
+                        d.add(key)
+                        changed = True
+    return d
+
+
+def _mentions(e: ast.AST, d: set[str]) -> bool:
+    return any((isinstance(x, ast.Name) and x.id in d) or (isinstance(x, ast.Attribute) and norm(x) in d) for x in ast.walk(e))
+
+
+def _unit_over(v: FuncInfo, call: ast.Call, d: set[str], repo: Repo, T) -> ast.AST | None:
+    """Outermost statement that makes `call` happen once per element of a collection derived from `d`: an enclosing loop or
+    comprehension over it, a bulk call taking it as argument, or a call of a helper that loops over it."""
+    unit = None
+    for lp in loops_around(call, v.node):
+        for _t, it in iter_sources(lp):
+            if _mentions(it, d):
+                unit = lp if isinstance(lp, (ast.For, ast.AsyncFor)) else stmt_of(lp)
+    if unit is not None:
+        return unit
+    if any(_mentions(a, d) for a in [*call.args, *[k.value for k in call.keywords]]):
+        return stmt_of(call)
+    attrs = {x.split(".", 1)[1] for x in d if x.startswith("self.")}
+    try:
+        cs, _how = T.callees(v, call, byname_fallback=False)
+    except Exception:  # noqa: BLE001
+        cs = []
+    for g in cs:
+        gv = inline_view(repo, g, T)
+        for n in own_nodes(gv.node):
+            its = [n.iter] if isinstance(n, (ast.For, ast.AsyncFor, ast.comprehension)) else []
+            for it in its:
+                if any(isinstance(x, ast.Attribute) and isinstance(x.value, ast.Name) and x.attr in attrs for x in ast.walk(it)):
+                    return stmt_of(call)
+    return None
+
 
 def run_r1(repo: Repo, res: Result) -> None:
-    g = repo.cls(NXGRAPH, "NetworkxGraph")
-    init = g.methods.get("__init__")
-    if init is None:
-        raise AnalysisError("NetworkxGraph.__init__ not found")
-    cfg = cfg_of(init)
-    freeze = [c for c in calls_in(init.node) if (repo.resolve_name(init.module, c.func) or "").endswith("networkx.freeze") or dotted(c.func) in ("nx.freeze", "freeze")]
-    builders = [c for c in calls_in(init.node) if isinstance(c.func, ast.Attribute) and dotted(c.func.value) == "self" and c.func.attr.startswith("_") and repo.lookup_method(g, c.func.attr) is not None]
-    ok = len(freeze) == 1 and bool(builders)
-    detail = "nx.freeze(self._graph) is the last step of the only constructor"
-    if ok:
-        fz = stmt_of(freeze[0])
+    T = types_of(repo)
+    R = _roots(repo)
+    # graph classes: an instance attribute holds a networkx graph
+    if R._store_index is None:
+        R._build_store_index()
+    graph_classes = []
+    for (cfq, attr) in sorted(R._store_index):  # type: ignore[arg-type]
+        ci = repo.classes.get(cfq)
+        if ci is not None and ci not in graph_classes and T.attr_type(ci, attr) == DIGRAPH:
+            graph_classes.append(ci)
+    if not graph_classes:
+        res.undecide("C15.R1", "src::graph class", "no class keeps a networkx.DiGraph in an instance attribute: the frozen-graph argument has no anchor")
+        return
+    muts = graph_mutations(repo)
+    for g in graph_classes:
+        init = repo.lookup_method(g, "__init__")
+        if init is None:
+            res.undecide("C15.R1", f"{g.module.relpath}::{g.name}::__init__", "graph class without a constructor of its own")
+            continue
+        gb = GraphBuild(repo, g, init)
+        v, cfg = gb.view, gb.cfg
         from core.cfg import EXIT
 
-        ok = "_graph" in norm(freeze[0].args[0]) if freeze[0].args else False
-        ok = ok and cfg.dominates(fz, EXIT) and all(cfg.dominates(stmt_of(b), fz) for b in builders)
-        if not ok:
-            detail = "the graph is not frozen on every path after it has been built (freeze must follow _initialise and dominate the exit)"
-    else:
-        detail = "the constructor does not freeze the graph after building it"
-    res.add("C15.R1", f"{init.relpath}::{init.qualname}::freeze", ok, detail, where(init, init.node), kind="dominance")
-    # who may mutate the graph
-    T = types_of(repo)
-    mutating: list[tuple[FuncInfo, ast.Call]] = []
-    for f in repo.all_functions():
-        for c in calls_in(f.node):
-            if isinstance(c.func, ast.Attribute) and c.func.attr in GRAPH_MUTATORS:
-                t = T.expr(f, c.func.value)
-                if any(m == ("lib", "networkx.DiGraph") for m in members(t)):
-                    mutating.append((f, c))
-        for n in own_nodes(f.node):
-            if isinstance(n, ast.Assign):
-                for t_ in n.targets:
-                    if isinstance(t_, ast.Subscript) and any(m == ("lib", "networkx.DiGraph") for m in members(T.expr(f, t_.value))):
-                        mutating.append((f, n))
-    # functions reachable from anything that is not the constructor chain
-    public = [m for m in g.methods.values() if m is not init and (not m.name.startswith("_") or m.name.startswith("__"))]
-    outside = reachable_funcs(repo, [*public, *evaluation_roots(repo)], byname=True, stop={init.fq})
-    outside.pop(init, None)
-    from_init = reachable_funcs(repo, [init], byname=False)
-    for f, c in mutating:
-        ok = f in from_init and f not in outside
-        path = outside.get(f)
-        res.add(
-            "C15.R1",
-            repo.key(f, stmt_of(c)),
-            ok,
-            "graph mutator reachable only from the constructor" if ok else f"`{norm(c)}` mutates the graph and is reachable after construction via {' -> '.join(p.split('::')[1] for p in path) if path else 'a function outside the constructor chain'}",
-            where(f, c),
-            kind="effect",
-        )
-    res.floor("C15.R1", 3, len(mutating) + 1)
-    # all nodes before the first import edge
-    ini = g.methods.get("_initialise")
-    if ini is None:
-        raise AnalysisError("NetworkxGraph._initialise not found")
-    loops = [n for n in own_nodes(ini.node) if isinstance(n, ast.For) and "_imports" in norm(n.iter)]
-    adders = [c for c in calls_in(ini.node) if is_attr_call(c, "_add_all_modules_as_nodes")]
-    ok = bool(loops) and bool(adders) and all(cfg_of(ini).dominates(stmt_of(adders[0]), l) for l in loops) and not any(a is l for l in loops for a in ancestors(adders[0]))
-    res.add("C15.R1", f"{ini.relpath}::{ini.qualname}::nodes before edges", ok, "every module is registered as a node before the first import edge is created" if ok else "import edges are created before all modules are nodes: the has_node guard makes the edge set depend on the order of imports/modules", where(ini, ini.node), kind="dominance")
+        ev = {s: gb.events(s) for s in cfg.stmts()}
+        freezes = [s for s, e in ev.items() if "freeze" in e]
+        mutating = [s for s, e in ev.items() if any(k in e for k in ("node", "edge", "other"))]
+        key = f"{init.relpath}::{init.qualname}::freeze"
+        if not freezes:
+            res.add("C15.R1", key, False, f"the constructor of {g.name} never freezes the graph it builds: later calls can modify it", where(init, init.node), kind="dominance")
+        else:
+            final = [s for s in freezes if cfg.dominates(s, EXIT)]
+            both = [s for s in freezes if s in mutating]
+            late = [m for m in mutating for s in final if m is not s and cfg.paths_avoiding(s, m, set())]
+            typed = all(_through_digraph(T, v, c.args[0]) for s in freezes for c in ev[s]["freeze"] if _lib_name(repo, v, c) == "networkx.freeze" and c.args)
+            if both and not late and final:
+                res.undecide("C15.R1", key, f"`{header(both[0])}` both modifies and freezes the graph and could not be expanded: the order of the two cannot be seen", where(init, both[0]))
+            else:
+                ok = bool(final) and not late and typed
+                detail = "nx.freeze(graph) is passed on every path to the end of the constructor and nothing modifies the graph afterwards"
+                if not final:
+                    detail = "the graph is not frozen on every path through the constructor"
+                elif late:
+                    detail = f"`{header(late[0])}` modifies the graph after it has been frozen (freeze must follow the construction)"
+                elif not typed:
+                    detail = "nx.freeze is not applied to the graph"
+                res.add("C15.R1", key, ok, detail, where(init, init.node), kind="dominance")
+        # nodes before import edges
+        params = [p for p in init.param_names if p != Roots.self_name(init)]
+        okey = f"{init.relpath}::{init.qualname}::nodes before edges"
+        if len(params) < 2:
+            res.undecide("C15.R1", okey, "the constructor does not take (modules, imports): cannot tell module registration from import edges")
+        else:
+            d_mod, d_imp = _derived(v, params[0]), _derived(v, params[1])
+            node_units: list[ast.AST] = []
+            edge_units: list[ast.AST] = []
+            for s, e in ev.items():
+                for c in e.get("edge", []):
+                    u = _unit_over(v, c, d_imp, repo, T)
+                    if u is not None and u not in edge_units:
+                        edge_units.append(u)
+            for s, e in ev.items():
+                for c in e.get("node", []):
+                    u = _unit_over(v, c, d_mod, repo, T)
+                    if u is not None and u not in node_units and not any(u is x or x in list(ancestors(u)) for x in edge_units):
+                        node_units.append(u)
+            if not edge_units:
+                res.undecide("C15.R1", okey, f"no statement of the constructor creates edges per element of `{params[1]}`: the import loop was not recognised", where(init, init.node))
+            else:
+                def complete(u: ast.AST) -> bool:
+                    # the registration loop runs to its end: no break of its own
+                    if not isinstance(u, (ast.For, ast.AsyncFor)):
+                        return True
+                    for b in ast.walk(u):
+                        if isinstance(b, ast.Break):
+                            inner = next((a for a in ancestors(b) if isinstance(a, (ast.For, ast.AsyncFor, ast.While))), None)
+                            if inner is u:
+                                return False
+                    return True
+
+                good = [u for u in node_units if complete(u) and all(u is not e and u not in list(ancestors(e)) and cfg.dominates(u, e) for e in edge_units)]
+                ok = bool(good)
+                res.add(
+                    "C15.R1",
+                    okey,
+                    ok,
+                    f"every module of `{params[0]}` is registered as a node (`{header(good[0])}`) before the first edge is created from `{params[1]}`" if ok else f"import edges (`{header(edge_units[0])}`) are created before all modules of `{params[0]}` are nodes: the has_node guard makes the edge set depend on the order of imports/modules",
+                    where(init, edge_units[0]),
+                    kind="dominance",
+                )
+        # who may mutate a graph after construction
+        public = [m for c in R.hierarchy(g) for m in c.methods.values() if m is not init and (not m.name.startswith("_") or (m.name.startswith("__") and m.name != "__init__"))]
+        outside = reachable_funcs(repo, [*public, *evaluation_roots(repo)], byname=True, stop={init.fq})
+        outside.pop(init, None)
+        from_init = reachable_funcs(repo, [init], byname=False)
+        n_sites = 0
+        for f, c, _k, recv in muts:
+            rv = R.value(f, recv)
+            if rv.obj and rv.only_fresh:
+                continue  # a private graph created in this very function
+            n_sites += 1
+            ok = f in from_init and f not in outside
+            path = outside.get(f)
+            res.add(
+                "C15.R1",
+                repo.key(f, stmt_of(c)),
+                ok,
+                "graph mutator reachable only from the constructor" if ok else f"`{norm(c)}` mutates the graph and is reachable after construction via {' -> '.join(p.split('::')[1] for p in path) if path else 'a function outside the constructor chain'}",
+                where(f, c),
+                kind="effect",
+            )
+        res.floor("C15.R1", 2, n_sites)
 
 
 # --------------------------------------------------------------------------- R2
